@@ -271,12 +271,17 @@ def run(ctx):
     for part in common.pmap(work, tasks):
         acc += part
     ctx.layer('weighted-mean', acc)
+    from props import c09_e2e
+    c09_e2e.run_layer(ctx)
 
 
 def replay(case):
     common.bind_repo()
     acc = Acc()
     layer = case.get('layer')
+    if layer in ('e2e-file', 'e2e-molecule'):
+        from props import c09_e2e
+        return c09_e2e.replay(case)
     if layer == 'mean':
         check_case(case['n'], [Fraction(w) for w in case['weights']], tuple(case['missing']), case['mode'],
                    case['missing_style'], acc)
